@@ -118,10 +118,18 @@ def one_model(ctx, prog, script, rng):
             seed_from = (rng.choice(endo_names), rng.choice(others), rng.choice(['attr', 'item', 'replace_values']))
             ctx.count('models_seeded_from_another_series')
 
+        # sometimes the convergence-check list names a variable that no equation assigns (an exogenous variable or parameter
+        # watched for stability): being checked does not make it something a solve may change - not even through `offset`
+        extra_check = [rng.choice(others)] if others and rng.random() < 0.3 else []
+        if extra_check:
+            ctx.count('models_checking_a_non_endogenous_variable')
+
         def fresh():
             m = Rec(span)
             for nm in names:
                 m.__dict__['_' + nm][:] = data[nm]
+            if extra_check:
+                m.check = list(m.check) + extra_check
             if seed_from is not None:
                 e_, x_, how = seed_from
                 if how == 'attr':
